@@ -16,3 +16,8 @@ def gen_config(rng, tier):
     faults = ["scribble"] if rng.random() < 0.85 else []
     return {"n": n, "steps": rng.randrange(6, 40), "ops": ops, "faults": faults, "flags": ["c17"],
             "backend": "torch" if rng.random() < 0.15 else "numpy"}
+
+
+# reach guard: a full-size batch in which one of these never fired means the workload or the
+# harness has rotted (exit 2, never a pass)
+REQUIRED_REACH = ['scribble', 'inplace:rotate', 'inplace:transform', 'inplace:measure', 'inplace:gate_apply', 'inplace:take', 'inplace:compose', 'inplace:embed', 'inplace:set_map', 'copy:state', 'copy:circuit', 'copy:poly', 'copy:gate', 'copy:layer', 'query_result_is_a_view']
